@@ -13,6 +13,10 @@
 #include <set>
 #include <unistd.h>
 #include <sched.h>
+#include <locale>
+#include <clocale>
+#include <cfenv>
+#include <sys/stat.h>
 
 namespace vf {
 
@@ -65,7 +69,7 @@ static uint64_t job(uint64_t seed, long round, int tid, const std::string& dir, 
         { Outcome oc; VF_TRY(oc, c.lockGroup("NO_SUCH_GROUP")); MIX(classHash(oc)); }
         { Outcome oc; Param un("UNTYPED"); VF_TRY(oc, c.parameter("THREAD", un)); MIX(classHash(oc)); }
         MIX(hashSnap(take(c)));
-        std::string p1 = dir + "/thr_" + tag + "_" + std::to_string(round) + "_" + std::to_string(tid) + ".c3d";
+        std::string p1 = dir + "/thr_" + tag + "_" + std::to_string(round) + ".t" + std::to_string(tid);      // the threads of a round save side by side: same directory, same stem, different extension
         { Outcome oc; VF_TRY(oc, c.write(p1)); MIX(classHash(oc)); }
         MIX(fnv(readFileBytes(p1)));
         {
@@ -95,7 +99,17 @@ static uint64_t job(uint64_t seed, long round, int tid, const std::string& dir, 
 
 static const char* siteName(int s) { switch (s) { case 10: return "LOAD_HEADER"; case 11: return "LOAD_PARAMS"; case 12: return "LOAD_DATA"; case 13: return "LOAD_DONE"; case 20: return "SAVE_HEADER"; case 21: return "SAVE_PARAMS"; case 22: return "SAVE_DATA"; case 23: return "SAVE_CLOSE"; case 24: return "SAVE_DONE"; } return "?"; }
 
+// Process-global state an application owns and a library working on independent objects must leave alone.
+struct GroupingPunct : std::numpunct<char> { std::string do_grouping() const { return "\1"; } char do_thousands_sep() const { return '\''; } };
+struct GlobalState { std::locale cxx; std::string c; std::string cwd; mode_t mask; int rounding;
+    static GlobalState get() { GlobalState g; g.cxx = std::locale(); const char* l = setlocale(LC_ALL, 0); g.c = l ? l : "?"; char b[4096]; g.cwd = getcwd(b, sizeof b) ? b : "?"; g.mask = umask(0); umask(g.mask); g.rounding = fegetround(); return g; }
+    std::string diff(const GlobalState& o) const { std::string d; if (!(cxx == o.cxx)) d += "cxx_global_locale;"; if (c != o.c) d += "c_locale;"; if (cwd != o.cwd) d += "working_directory;"; if (mask != o.mask) d += "umask;"; if (rounding != o.rounding) d += "fp_rounding_mode;"; return d; } };
+
 void runThreadsRound(const Opts& o, long idx, CaseLog& log) {
+    // every other round the application has its own global C++ locale (digits grouped one by one): whatever the library formats must come
+    // out the same concurrently and alone, and the locale must still be the application's afterwards
+    if (idx % 2 == 1) std::locale::global(std::locale(std::locale::classic(), new GroupingPunct));
+    GlobalState gs0 = GlobalState::get();
     int T = (int)o.geti("threads", 8);
     if (o.geti("vary_threads", 1)) { static const int ts[] = {2, 4, 8, 16}; T = ts[idx % 4]; if (o.geti("threads", 0)) T = (int)o.geti("threads", 8); }
     std::vector<std::string> shared = o.list.empty() ? std::vector<std::string>() : readLines(o.list);
@@ -113,6 +127,7 @@ void runThreadsRound(const Opts& o, long idx, CaseLog& log) {
     });
     for (size_t t = 0; t < th.size(); ++t) th[t].join();
     g_perturb = 0;
+    { std::string d = gs0.diff(GlobalState::get()); log.line("CNT global_state_checked 1"); if (!d.empty()) log.viol("C18", "process_global_state_changed/" + d, "after the concurrent jobs the process-global state differs from before: " + d); }
     // solo reference: the same jobs, one after the other, in this thread
     int mismatches = 0;
     for (int t = 0; t < T; ++t) {
